@@ -298,15 +298,24 @@ def controls_facts():
 
 
 def mutant_selftest(prop, out=sys.stdout):
-    """thorough tier: every seeded change of this property (seeded/<prop>-*/patch.diff) is applied to a scratch copy of the
+    """thorough tier: every seeded change of this property (seeded/<prop>-*/patch.diff) and every own mutant aimed at it
+    (mutants/*.diff) is applied to a scratch copy of the
     current tree, facts are re-extracted from that copy and the same rules must report a violation. Static: the mutated
     source is analysed, never executed. A patch that no longer applies is `stale`."""
     import glob as _glob
     import subprocess as _sp
     results = []
-    seeds = sorted(_glob.glob(os.path.join(VERIF, "seeded", prop + "-*", "patch.diff")))
-    for patch in seeds:
-        name = os.path.basename(os.path.dirname(patch))
+    seeds = [(os.path.basename(os.path.dirname(p_)), p_) for p_ in sorted(_glob.glob(os.path.join(VERIF, "seeded", prop + "-*", "patch.diff")))]
+    # plus the hand-written single-site mutants aimed at this property (mutants/INDEX.json)
+    try:
+        idx = json.load(open(os.path.join(VERIF, "mutants", "INDEX.json")))
+    except (OSError, ValueError):
+        idx = {}
+    for mname in sorted(idx):
+        mp = os.path.join(VERIF, "mutants", mname + ".diff")
+        if idx[mname].get("property") == prop and os.path.exists(mp):
+            seeds.append(("own:" + mname, mp))
+    for name, patch in seeds:
         try:
             scratch = ex.scratch_copy()
             r = _sp.run(["git", "apply", "--unsafe-paths", "--directory", scratch, patch], capture_output=True, text=True, cwd="/")
